@@ -1,0 +1,20 @@
+//go:build verif
+
+package postgresql
+
+import "reflect"
+
+// VerifPendingQueryCount is an observation hook for the /verif runtime monitors (compiled only with build tag "verif"):
+// the number of query packets the proxy still expects a database response for. At quiescence (after ReadyForQuery
+// has been delivered for everything the client sent) it must be zero, otherwise later responses are paired with
+// the wrong statement. The hook only reads state.
+func (proxy *PgProxy) VerifPendingQueryCount() int {
+	packets := proxy.protocolState.pendingQueryPackets
+	packets.mutex.RLock()
+	defer packets.mutex.RUnlock()
+	l, ok := packets.lists[reflect.TypeOf(queryPacket{})]
+	if !ok {
+		return 0
+	}
+	return l.Len()
+}
